@@ -196,19 +196,24 @@ def run(ctx):
                 out.append((s_, tg_))
         return out
     for nn, s in g.stmt.items():
-        if g.kind[nn] != "stmt":
+        if g.kind[nn] not in ("stmt", "return"):
             continue
         for st_, tg in key_stores(ast.Module([s], [])) if isinstance(
                 s, (ast.Assign, ast.AugAssign)) else []:
             upd[tg.slice.value].append(nn)
             upd_values[tg.slice.value].append((s, names_in(s.value)))
-        # helper(header, lo, hi) that stores the keys on its parameter
-        if isinstance(s, ast.Expr) and isinstance(s.value, ast.Call):
-            q = prog.resolve_name(mod, norm(s.value.func))
+        # helper(header, lo, hi) that stores the keys on its parameter --
+        # called as a statement, in an assignment or in the return itself
+        if not isinstance(s, (ast.Expr, ast.Assign, ast.Return)):
+            continue
+        for call_ in [c for c in ast.walk(s) if isinstance(c, ast.Call)]:
+            q = prog.resolve_name(mod, norm(call_.func)) \
+                if isinstance(call_.func, ast.Name) else None
             h = prog.functions.get(q)
-            if h is not None and not s.value.keywords and \
-                    len(s.value.args) <= len(h.params):
-                bind = dict(zip(h.params, [norm(a) for a in s.value.args]))
+            if h is not None and len(call_.args) <= len(h.params):
+                bind = dict(zip(h.params, [norm(a) for a in call_.args]))
+                bind.update({k.arg: norm(k.value) for k in call_.keywords
+                             if k.arg})
                 for st_, tg in key_stores(h.node):
                     if bind.get(norm(tg.value)) == "header":
                         upd[tg.slice.value].append(nn)
@@ -221,6 +226,8 @@ def run(ctx):
     for key, nodes in upd.items():
         for rn in rets:
             p = g.path_avoiding(ENTRY, rn, nodes) if nodes else [ENTRY, rn]
+            if rn in nodes:
+                p = None            # the return expression performs it
             ctx.check("C20-R2", fi, "%s updated before %s" %
                       (key, norm(g.stmt[rn], 60)), p is None,
                       "a path reaches this return without adjusting %s: the "
@@ -231,10 +238,29 @@ def run(ctx):
     ctx.rule("C20-R3", "validation: accepted iff 0 <= band[0] < band[1] "
              "(tabulated over order types)")
     guards = []
+    alias = {}          # local name -> expression over `band`
     for s in fi.node.body:
         if isinstance(s, ast.Expr) and isinstance(s.value, ast.Constant):
             continue                         # docstring
-        if isinstance(s, ast.If) and band in names_in(s.test):
+        if isinstance(s, ast.Assign) and len(s.targets) == 1 and \
+                names_in(s.value) <= {band} | set(alias) and \
+                names_in(s.value) and not any(
+                    isinstance(x, ast.Call) for x in ast.walk(s.value)):
+            # this_band = band[0] / n_bands = band[1] / a, b = band
+            t = s.targets[0]
+            if isinstance(t, ast.Name):
+                alias[t.id] = s.value
+                continue
+            if isinstance(t, (ast.Tuple, ast.List)) and \
+                    all(isinstance(e, ast.Name) for e in t.elts):
+                for k_, e in enumerate(t.elts):
+                    alias[e.id] = s.value.elts[k_] if isinstance(
+                        s.value, (ast.Tuple, ast.List)) else ast.Subscript(
+                            value=s.value, slice=ast.Constant(k_),
+                            ctx=ast.Load())
+                continue
+        if isinstance(s, ast.If) and names_in(s.test) & ({band} |
+                                                         set(alias)):
             cur = s
             while True:
                 raises = any(isinstance(x, ast.Raise) for x in cur.body)
@@ -255,6 +281,13 @@ def run(ctx):
     def ev(e, b0, b1):
         if isinstance(e, ast.Constant):
             return e.value
+        if isinstance(e, ast.Name) and e.id in alias:
+            return ev(alias[e.id], b0, b1)
+        if isinstance(e, ast.Subscript) and isinstance(e.value, ast.Name) \
+                and e.value.id in alias and \
+                isinstance(e.slice, ast.Constant):
+            return ev(ast.Subscript(value=alias[e.value.id], slice=e.slice,
+                                    ctx=ast.Load()), b0, b1)
         if isinstance(e, ast.Subscript) and norm(e.value) == band and \
                 isinstance(e.slice, ast.Constant):
             return (b0, b1)[e.slice.value]
